@@ -43,7 +43,7 @@ import (
 func init() {
 	register(&Engine{
 		Name: "lex",
-		Rule: "generic TTLV trees from the seeded structure-aware generator (wide, deep, big integers up to 4096 bits; XML-/JSON-representable text, dates in years 1..9999), a share of them decorated with enumeration / bit-mask nodes written through Encoder.Enum(enumtag,…) / Encoder.Bitmask(masktag,…) with registered and unregistered tags and values, plus a hand-written boundary list for every scalar kind: written by the real XML and JSON writers, parsed by encoding/xml / encoding/json token walks into a neutral element tree (writer lines); reader lines = those documents (with the typed caller's hints and with the generic decoder), a hand-enumerated list of alternative lexical forms of every type and of malformed element structures (duplicate / missing attributes and members, tag forms, unread structure children at several depths), lexical mutations of the library's documents, and (lex_forms.go) for every number-carrying scalar kind at boundary and random values the SAME value respelled by the harness's own formatter in every alternative legal lexical form (leading zeros, explicit sign, white space, 0x forms of any digit case and width, JSON numbers with fraction / exponent, decimal in JSON strings, hexBinary case, big-integer padding, date zone forms, tag spellings), alone and between siblings, with the oracle lexical-form: byte-identical binary TTLV or rejection (rejection a violation too for the forms of the xsd lexical space), never another value; documents the independent parser rejects are impl-only (no-panic oracle). distinct = distinct protocol line; nontrivial = tree with >1 node, an annotated node or a boundary value; every reader document",
+		Rule: "generic TTLV trees from the seeded structure-aware generator (wide, deep, big integers up to 4096 bits; XML-/JSON-representable text, dates in years 1..9999), a share of them decorated with enumeration / bit-mask nodes written through Encoder.Enum(enumtag,…) / Encoder.Bitmask(masktag,…) with registered and unregistered tags and values, plus a hand-written boundary list for every scalar kind: written by the real XML and JSON writers, parsed by encoding/xml / encoding/json token walks into a neutral element tree (writer lines); reader lines = those documents (with the typed caller's hints and with the generic decoder), a hand-enumerated list of alternative lexical forms of every type and of malformed element structures (duplicate / missing attributes and members, tag forms, unread structure children at several depths), lexical mutations of the library's documents, and (lex_forms.go) for every number-carrying scalar kind at boundary and random values the SAME value respelled by the harness's own formatter in every alternative legal lexical form (leading zeros, explicit sign, white space, 0x forms of any digit case and width, JSON numbers with fraction / exponent, decimal in JSON strings, hexBinary case, big-integer padding, date zone forms, tag spellings), alone and between siblings, with the oracle lexical-form: byte-identical binary TTLV or rejection (rejection a violation too for the forms of the xsd lexical space), never another value; documents the independent parser rejects are impl-only (no-panic oracle); (lex_reuse.go) a few hundred XML / JSON documents written through ONE Encoder used again - after Clear, several in a row, after a recovered encoding panic at structure depth 0..4 followed by Clear - judged by well-formedness, equality with the fresh encoder's document and binary identity after decoding (impl-only lines #lex.reuse). distinct = distinct protocol line; nontrivial = tree with >1 node, an annotated node or a boundary value; every reader document",
 		Run:  lexRun,
 	})
 }
@@ -2327,6 +2327,8 @@ func (e *lexEnv) replay(ctx *Ctx) {
 			e.zoneCase(ctx, c, lexZone{g[3], loc}, g[2] == "local", x)
 		case "#lex.form":
 			e.formReplay(ctx, l)
+		case "#lex.reuse":
+			e.reuseReplay(ctx, l)
 		case "#lex.xmlr-raw", "#lex.jsonr-raw", "#lex.xmlr-nonascii-space", "#lex.jsonr-nonascii-space":
 			if len(f) < 3 {
 				continue
@@ -2542,12 +2544,16 @@ func lexRun(ctx *Ctx) {
 		}
 		e.oneTree(ctx, lexTree{x, mode == 2, true, false}, origin, i%2 == 0)
 	}
+	// (4) documents written through a reused encoder: after Clear, after a recovered failure (lex_reuse.go); last, so that
+	// the random stream of the classes above is what it was
+	e.reuseRun(ctx)
 	if lexFailCount > 20 {
 		ctx.Res.Fail(fmt.Sprintf("lex: %d harness errors in total", lexFailCount))
 	}
 	// floors: the classes of input this engine exists for were all exercised
 	for k, min := range map[string]int{"w.xml.long": 20, "w.json.long": 20, "w.xml.longbin": 60, "w.json.longbin": 60, "text.wide-alphabet": 50, "w.xml.readback-positional": 20, "w.json.readback-positional": 20,
-		"form.xml.must.ok": 1000, "form.xml.may.ok": 2000, "form.json.may.ok": 3000, "form.xml.may.rejected": 500, "form.json.may.rejected": 500, "zone.xml.local.ok": 50, "zone.json.in.ok": 50, "r.xml.own-positional.ok": 50, "r.json.own-positional.ok": 50, "r.xml.hand.ok": 1000, "r.json.hand.ok": 1000} {
+		"form.xml.must.ok": 1000, "form.xml.may.ok": 2000, "form.json.may.ok": 3000, "form.xml.may.rejected": 500, "form.json.may.rejected": 500, "zone.xml.local.ok": 50, "zone.json.in.ok": 50, "r.xml.own-positional.ok": 50, "r.json.own-positional.ok": 50, "r.xml.hand.ok": 1000, "r.json.hand.ok": 1000,
+		"reuse.xml.judged-after-failure": 100, "reuse.json.judged-after-failure": 100, "reuse.xml.judged-after-clear": 50, "reuse.json.judged-after-clear": 50} {
 		if ctx.Res.Distribution[k] < min {
 			ctx.Res.Fail(fmt.Sprintf("lex: only %d cases of class %s (floor %d)", ctx.Res.Distribution[k], k, min))
 		}
